@@ -8,7 +8,7 @@ from checks import appcommon
 # per property: directed scenarios, random profiles (quick / thorough), outcome kinds that must be
 # exercised on the unchanged tree (vacuity guard), bounded model config(s)
 TABLE = {
-    "C02": dict(evm=True, directed=["stake_amount_shapes", "many_new_accounts", "big_powers", "prefund_then_create", "evm_odd_addresses", "fee_edges", "evm_sweep_to_zero", "wrap_amount", "checktx_not_delivered", "evm_value", "evm_selfdestruct", "evm_nested_revert", "evm_mixed", "recreate_in_block", "genesis_twins_unbond", "twin_jail", "huge_stake", "same_block_withdraw",
+    "C02": dict(evm=True, directed=["evm_price_above", "stake_amount_shapes", "many_new_accounts", "big_powers", "prefund_then_create", "evm_odd_addresses", "fee_edges", "evm_sweep_to_zero", "wrap_amount", "checktx_not_delivered", "evm_value", "evm_selfdestruct", "evm_nested_revert", "evm_mixed", "recreate_in_block", "genesis_twins_unbond", "twin_jail", "huge_stake", "same_block_withdraw",
                           "slash_then_unstake", "no_proposer_block", "many_unbonding", "forced_unbond"],
                 quick=[dict(n=6, blocks=25), dict(n=4, blocks=20, boundary=True)],
                 thorough=[dict(n=40, blocks=40), dict(n=40, blocks=40, seed_off=50), dict(n=30, blocks=30, boundary=True),
@@ -18,20 +18,20 @@ TABLE = {
                 quick=[dict(n=8, blocks=20, maxtx=7)],
                 thorough=[dict(n=50, blocks=40, maxtx=8), dict(n=50, blocks=40, maxtx=8, seed_off=31)],
                 need=[("transfer", True), ("transfer", False), ("staking", True)]),
-    "C05": dict(evm=True, directed=["stake_amount_shapes", "many_new_accounts", "zero_gas_price", "evm_odd_addresses", "evm_rejected_then_more", "native_to_contract", "wrap_amount", "evm_fail", "evm_nested_revert", "fee_edges", "nonce_replay", "vote_window_edges", "forced_unbond", "huge_stake", "same_block_withdraw",
+    "C05": dict(evm=True, directed=["limiter_refusal_then_more", "evm_price_above", "foreign_unstake_small_set", "stake_amount_shapes", "many_new_accounts", "zero_gas_price", "evm_odd_addresses", "evm_rejected_then_more", "native_to_contract", "wrap_amount", "evm_fail", "evm_nested_revert", "fee_edges", "nonce_replay", "vote_window_edges", "forced_unbond", "huge_stake", "same_block_withdraw",
                           "setdoc_and_accounts", "price_change"],
                 quick=[dict(n=8, blocks=20, maxtx=7), dict(n=3, blocks=15, boundary=True)],
                 thorough=[dict(n=50, blocks=40, maxtx=8), dict(n=40, blocks=40, maxtx=8, seed_off=11), dict(n=30, blocks=30, boundary=True)],
                 need=[("transfer", False), ("staking", False), ("unstaking", False), ("withdraw", False), ("proposal", False), ("voting", False)]),
-    "C10": dict(directed=["big_powers", "restart_after_first_block", "self_unstake_after_restart", "redistribute_same_total", "minstake_change", "restart_truncated", "valcount_change", "self_below_min", "validator_churn", "twin_jail", "forced_unbond", "slash_then_unstake", "recreate_in_block", "early_unbond"],
+    "C10": dict(directed=["jail_edges", "big_powers", "restart_after_first_block", "self_unstake_after_restart", "redistribute_same_total", "minstake_change", "restart_truncated", "valcount_change", "self_below_min", "validator_churn", "twin_jail", "forced_unbond", "slash_then_unstake", "recreate_in_block", "early_unbond"],
                 quick=[dict(n=8, blocks=30, extra=["-prestart", "0.1"])],
                 thorough=[dict(n=60, blocks=50), dict(n=60, blocks=50, seed_off=13)],
                 need=[("staking", True), ("unstaking", True), ("absent", True)]),
-    "C11": dict(directed=["stake_amount_shapes", "big_powers", "self_unstake_after_restart", "tiny_stakes_slashed", "checktx_not_delivered", "self_below_min", "recreate_in_block", "forced_unbond", "slash_then_unstake", "genesis_twins_unbond", "validator_churn", "many_unbonding"],
+    "C11": dict(directed=["jail_edges", "foreign_unstake_small_set", "limiter_refusal_then_more", "stake_amount_shapes", "big_powers", "self_unstake_after_restart", "tiny_stakes_slashed", "checktx_not_delivered", "self_below_min", "recreate_in_block", "forced_unbond", "slash_then_unstake", "genesis_twins_unbond", "validator_churn", "many_unbonding"],
                 quick=[dict(n=8, blocks=25, extra=["-prestart", "0.1"])],
                 thorough=[dict(n=60, blocks=50), dict(n=60, blocks=50, seed_off=17)],
                 need=[("staking", True), ("unstaking", True), ("evidence", True)]),
-    "C12": dict(directed=["big_powers", "self_unstake_after_restart", "tiny_stakes_slashed", "unbond_across_restart", "unbond_period_shortened", "checktx_not_delivered", "genesis_twins_unbond", "twin_jail", "forced_unbond", "many_unbonding", "slash_then_unstake"],
+    "C12": dict(directed=["jail_edges", "foreign_unstake_small_set", "big_powers", "self_unstake_after_restart", "tiny_stakes_slashed", "unbond_across_restart", "unbond_period_shortened", "checktx_not_delivered", "genesis_twins_unbond", "twin_jail", "forced_unbond", "many_unbonding", "slash_then_unstake"],
                 quick=[dict(n=8, blocks=30, extra=["-prestart", "0.1"])],
                 thorough=[dict(n=60, blocks=50), dict(n=60, blocks=50, seed_off=19)],
                 need=[("unstaking", True), ("unstaking", False)]),
@@ -39,7 +39,7 @@ TABLE = {
                 quick=[dict(n=8, blocks=25, extra=["-prestart", "0.1"])],
                 thorough=[dict(n=60, blocks=50), dict(n=60, blocks=50, seed_off=23)],
                 need=[("withdraw", True), ("withdraw", False), ("absent", True)]),
-    "C14": dict(directed=["window_grows_one_stale", "window_grows_two_stale", "absences_over_window", "big_powers", "tiny_stakes_slashed", "tiny_voter_slashed", "evidence_burst", "slash_then_unstake", "twin_jail", "vote_window_edges"],
+    "C14": dict(directed=["jail_edges", "window_grows_one_stale", "window_grows_two_stale", "absences_over_window", "big_powers", "tiny_stakes_slashed", "tiny_voter_slashed", "evidence_burst", "slash_then_unstake", "twin_jail", "vote_window_edges"],
                 quick=[dict(n=8, blocks=30, extra=["-prestart", "0.1"])],
                 thorough=[dict(n=60, blocks=50), dict(n=60, blocks=50, seed_off=29)],
                 need=[("evidence", True), ("absent", True)]),
@@ -47,7 +47,7 @@ TABLE = {
                 quick=[dict(n=8, blocks=30)],
                 thorough=[dict(n=60, blocks=50), dict(n=60, blocks=60, seed_off=37)],
                 need=[("proposal", True), ("proposal", False), ("voting", True), ("voting", False)]),
-    "C16": dict(evm=True, directed=["mixed_proposal_types", "zero_gas_price", "mingas_above_intrinsic", "native_to_contract", "evm_rejected_then_more", "evm_basic", "evm_value", "evm_fail", "evm_selfdestruct", "transfer_to_created", "fee_edges", "price_change", "no_proposer_block", "two_proposals_one_block", "same_block_withdraw", "many_unbonding"],
+    "C16": dict(evm=True, directed=["evm_price_above", "mixed_proposal_types", "zero_gas_price", "mingas_above_intrinsic", "native_to_contract", "evm_rejected_then_more", "evm_basic", "evm_value", "evm_fail", "evm_selfdestruct", "transfer_to_created", "fee_edges", "price_change", "no_proposer_block", "two_proposals_one_block", "same_block_withdraw", "many_unbonding"],
                 quick=[dict(n=8, blocks=25, maxtx=7)],
                 thorough=[dict(n=60, blocks=40, maxtx=8), dict(n=60, blocks=40, maxtx=8, seed_off=41)],
                 need=[("transfer", True), ("transfer", False), ("withdraw", True)]),
